@@ -205,6 +205,22 @@ def manufactured_deck(rnd, nslides=3):
         data = graft_foreign_parts(data, rnd)
     if rnd.random() < 0.5:
         data = respell_targets(data, rnd)
+    if rnd.random() < 0.3 and nslides > 1:
+        # a slide "deleted" the way the widespread recipe does it: its p:sldId is gone, its relationship (and part) stays
+        pk = opcx.Pkg.from_bytes(data)
+        pres = [r_.target for r_ in pk.rels("/") if r_.type == opcx.RT_OFFICE_DOCUMENT][0]
+        root = etree.fromstring(pk.members[pres[1:]], opcx.PLAIN)
+        sld = root.findall("{%s}sldIdLst/{%s}sldId" % (P, P))
+        if len(sld) > 1:
+            victim = sld[rnd.randrange(len(sld))]
+            victim.getparent().remove(victim)
+            out = dict(pk.members)
+            out[pres[1:]] = etree.tostring(root, xml_declaration=True, encoding="UTF-8", standalone=True)
+            buf = io.BytesIO()
+            with zipfile.ZipFile(buf, "w", zipfile.ZIP_DEFLATED) as zf:
+                for name_, blob_ in out.items():
+                    zf.writestr(name_, blob_)
+            data = buf.getvalue()
     if rnd.random() < 0.5:
         # slide ids not ascending in presentation order, the highest not last (a later slide was dragged to the front)
         pk = opcx.Pkg.from_bytes(data)
